@@ -36,13 +36,18 @@ structure Cfg where
   includeInt : Bool
   /-- F5 repaired: the `global` line keeps the first region's key order (else: `set` order). -/
   orderedGlobal : Bool
+  /-- F35 repaired: a sky position is brought to the default attributes (equinox, obstime) of the frame
+  whose DS9 word it is written under (else: its own numbers are written unchanged). -/
+  stdAttrs : Bool
 deriving DecidableEq, Repr
 
-/-- F3 = d58a058, F4 = 80f2f4f, F5 = 193fdcf are applied in /repo. -/
-def Cfg.current : Cfg := ⟨true, true, true⟩
-/-- the writer before those three commits (kept for the regression witnesses of `Props/C09`). -/
-def Cfg.unrepaired : Cfg := ⟨false, false, false⟩
-def Cfg.repaired : Cfg := ⟨true, true, true⟩
+/-- F3 = d58a058, F4 = 80f2f4f, F5 = 193fdcf are applied in /repo; F35 (proposed_fixes/F35.diff) is not:
+when it is, set the fourth field to `true` (the ONE line to change) and mark F35 fixed in
+known_findings/C09.json. -/
+def Cfg.current : Cfg := ⟨true, true, true, false⟩
+/-- the writer before those commits (kept for the regression witnesses of `Props/C09`). -/
+def Cfg.unrepaired : Cfg := ⟨false, false, false, false⟩
+def Cfg.repaired : Cfg := ⟨true, true, true, true⟩
 
 /-- the code in /repo as of this check. -/
 def codeCfg : Cfg := Cfg.current
@@ -974,6 +979,27 @@ def parse (o : ROut) : Except String (List Region) :=
   | .error e => .error e
   | .ok ds => makeAll ds
 
+/-! ### frame attributes (F35)
+
+A sky coordinate lives in a frame *instance*: FK5 at some equinox, FK4 at some equinox/obstime, the
+mean ecliptic of some equinox.  A DS9 frame word (`j2000`, `b1950`, `ecliptic`) names the frame with
+its default attributes.  astropy's `coord.transform_to(FrameClass(), merge_attributes=False)` is a
+parameter `T` of the model: `T r` = the positions of `r` in the default-attribute frame (`= r.coords`
+for pixel regions and for frames that already have the default attributes). -/
+
+abbrev AttrMap := Region → List (ℚ × ℚ)
+
+def stdRegion (T : AttrMap) (r : Region) : Region := { r with coords := T r }
+
+/-- what `_get_region_params` formats: the repaired writer transforms first. -/
+def standardize (cfg : Cfg) (T : AttrMap) (rs : List Region) : List Region :=
+  if cfg.stdAttrs then rs.map (stdRegion T) else rs
+
+/-- `Regions.serialize(format='ds9')` on regions whose frames may carry any attributes. -/
+def writeDs9 (cfg : Cfg) (T : AttrMap) (ord : List Key) (p : Nat) (rs : List Region) :
+    Except String (Option WOut) :=
+  serialize cfg ord p (standardize cfg T rs)
+
 /-- the reader applied to the writer's output (structured level). -/
 def roundTrip (cfg : Cfg) (ord : List Key) (sky : ℚ → ℚ) (p : Nat) (rs : List Region) :
     Except String (List Region) :=
@@ -981,5 +1007,10 @@ def roundTrip (cfg : Cfg) (ord : List Key) (sky : ℚ → ℚ) (p : Nat) (rs : L
   | .error e => .error e
   | .ok none => .ok []
   | .ok (some o) => parse (toRaw sky o)
+
+/-- the same, for regions whose frames may carry any attributes. -/
+def tripDs9 (cfg : Cfg) (T : AttrMap) (ord : List Key) (sky : ℚ → ℚ) (p : Nat) (rs : List Region) :
+    Except String (List Region) :=
+  roundTrip cfg ord sky p (standardize cfg T rs)
 
 end RegionsVerif.Impl.Ds9
